@@ -22,8 +22,12 @@ Definition frame_payload_ok (l : list event) (a' : acc) : bool :=
                      end) l.
 
 (* one step for one (context, entity, action): returns the failing clause (0 = fine) and the new state *)
-Definition judge_entry (is_fr : bool) (before o : out) (x : Z * Z * Z) (st : est) : Z * est :=
+Definition judge_entry (is_fr : bool) (ops : list op) (before o : out) (x : Z * Z * Z) (st : est) : Z * est :=
   let '(c, e, a) := x in
+  let joins := existsb (fun o => match o with
+                                 | OInsert e' c' => Z.eqb e e' && Z.eqb c c'
+                                 | OSpawn e' cs => Z.eqb e e' && memz c cs
+                                 | _ => false end) ops in
   let evs_main := events_for e a (x_main o) in
   let evs_post := events_for e a (x_post o) in
   let evs_pre := events_for e a (x_pre o) in
@@ -32,7 +36,12 @@ Definition judge_entry (is_fr : bool) (before o : out) (x : Z * Z * Z) (st : est
     match snap_of_entry c e a (x_snaps o) with Some s => acc_of (sn_state s) | None => Idle end in
   match st with
   | Absent =>
-      if negb (match evs_pre ++ evs_main ++ evs_post with [] => true | _ => false end) then (1, st)   (* nothing from a gone instance *)
+      let all := evs_pre ++ evs_main ++ evs_post in
+      (* joined within this very step and was then removed or rebuilt in the same flush (several ops): at most
+         the closing chunk of the episode of the instance it joined *)
+      let closing_only := joins &&
+                          match kinds all with [] | [ECanceled] | [ECompleted] => closing_payload_ok a all | _ => false end in
+      if negb (match all with [] => true | _ => false end) && negb closing_only then (1, st)   (* nothing from a gone instance *)
       else (0, if after then Live fresh_state else Absent)
   | Live ac =>
       let rebuilt := if ctx_shared c then built_ctx c o else built_has c e o in
@@ -60,7 +69,7 @@ Fixpoint judge_steps (ents : list (Z * Z * Z)) (sts : list est) (before : out) (
   match steps, outs with
   | st :: steps', o :: outs' =>
       if x_panicked o then 8 else
-      let rs := map (fun xs => judge_entry (is_frame st) before o (fst xs) (snd xs)) (combine ents sts) in
+      let rs := map (fun xs => judge_entry (is_frame st) (match st with SOp o1 => [o1] | SFrame f => f_ops f end) before o (fst xs) (snd xs)) (combine ents sts) in
       match find (fun r => negb (Z.eqb (fst r) 0)) rs with
       | Some r => fst r
       | None => judge_steps ents (map snd rs) o steps' outs'
